@@ -95,4 +95,9 @@ theorem pearson_self_one (ss nn : ℝ) (hn : nn ≠ 0) (hs : ss ≠ 0) : (ss / (
   simp only [Gen.pearsonDenominator]
   field_simp
 
+/-- source obligation: the stages of a cross-set fit run in the order preprocess → PCA → (Hilbert) augmentation → whitening →
+decomposition, so the whitening is fitted on the very (analytic) signal whose cross-covariance is decomposed -/
+theorem src_fit_stage_order :
+    Gen.crossFitStages = ["preprocess", "check-samples", "pca", "augment", "whiten", "algorithm"] := by decide
+
 end C09
